@@ -260,3 +260,32 @@ func log2Big(x *big.Int) float64 {
 // fixXe used to replace a ternary error distribution by the default Gaussian (ring.TernarySampler.AtLevel was broken below
 // the maximum level, C17:ternary:view-below-base-level:panic, fixed by 92775d7). It now keeps every drawn distribution.
 func fixXe(s *h.RLWESpec) {}
+
+// smudgePools keeps the recomputed per-share noise separately for protocol instances built by the constructor (class 0)
+// and for instances obtained through ShallowCopy (class 1, including copies of copies): the lower bound on the smudging
+// noise is asserted per class, so a copy that lost the flooding distribution cannot hide behind the original's samples.
+type smudgePools struct{ v [2][]*big.Int }
+
+func (p *smudgePools) add(cls int, r []*big.Int) { p.v[cls] = append(p.v[cls], r...) }
+func (p *smudgePools) short(cls int) bool        { return len(p.v[cls]) < minSmudgeSamples }
+
+// check asserts pooled std >= factor*0.8*sigma for both classes.
+func (p *smudgePools) check(sigma, factor float64, key string, rec *h.Rec) error {
+	for cls, v := range p.v {
+		if len(v) == 0 {
+			continue
+		}
+		_, std := stdOf(v)
+		name := "constructor"
+		k := key
+		if cls == 1 {
+			name = "ShallowCopy"
+			k = key + ":shallow-copy"
+		}
+		rec.Note("std/sigma:"+name, std/sigma)
+		if std < 0.8*factor*sigma {
+			return h.Failf(k, "pooled std of the share noise produced by %s instances is %.3f < 0.8 * %.3g * requested sigma %g over %d samples", name, std, factor, sigma, len(v))
+		}
+	}
+	return nil
+}
